@@ -363,7 +363,7 @@ def _fixed_ov(fixed, label):
 
 
 def write_replay(pid, r, m, rr, clause):
-    d = os.path.join(VERIF, 'replays')
+    d = os.environ.get('VERIF_REPLAY_DIR') or os.path.join(VERIF, 'replays')
     os.makedirs(d, exist_ok=True)
     seedhex = '%x' % (r['seed'] if r['seed'] is not None else 0)
     path = os.path.join(d, '%s-%s.json' % (pid, seedhex))
@@ -389,7 +389,7 @@ def confirm_replay(pid, path, clause):
 
 def write_evidence(pid, mod, tier, seed, agg, wall, guard_msg, nviol, sample_logs, nfixed, fixed_done, procs,
                    extra=None):
-    d = os.path.join(VERIF, 'evidence')
+    d = os.environ.get('VERIF_EVIDENCE_DIR') or os.path.join(VERIF, 'evidence')
     os.makedirs(d, exist_ok=True)
     samples = list(agg.samples)
     if samples and sample_logs:
